@@ -25,7 +25,8 @@ def build(tier, seed):
                     "decl_text": "variants of class Double sharing one cache file"})
     for pre in (False, True):
         src2 = source(cands=[0], nv=nv, preexisting=pre, twocuts=(tier != "quick"))
-        for v1 in range(nv):
+        # (declarations 6 and 3 generate code for one direction only: the module then lacks the other function)
+        for v1 in list(range(nv)) + [v for v in (6, 3) if v >= nv]:
             s2 = src2.replace("v1, v2 = pick(v1, %d), pick(v2, %d)\n    i1 = pick" % (nv, nv),
                               "assume(v1 == %d)\n    v1, v2 = %d, pick(v2, %d)\n    i1 = pick" % (v1, v1, nv))
             obs.append({"id": "C16/race/%s/first%d" % ("stale-cache" if pre else "empty-cache", v1),
